@@ -189,21 +189,31 @@ def handleHostQueryReply (c : Cfg) (s : LH) (from_ : List Addr) (d : Details) : 
     let (s, id) := getRemoteList s [certVpnAddr]
     (recordReport c s id (from_.headD ⟨.v4, 0⟩) certVpnAddr d, { trigger := some certVpnAddr })
 
-def handleHostUpdateNotification (c : Cfg) (s : LH) (from_ : List Addr) (d : Details) : LH × Outp :=
-  if !c.amLighthouse then (s, {}) else
-  let (detailsVpnAddr, useVersion) : Option Addr × Nat :=
-    if d.oldVpn != 0 then (some (v4Addr d.oldVpn), 1)
-    else match d.vpn with
-      | some a => (some a.unmap, 2)
-      | none => (none, 2)
-  if (match detailsVpnAddr with | some a => !memB from_ a | none => false) then (s, {}) else
-  let f0 := from_.headD ⟨.v4, 0⟩
-  let (s, id) := getRemoteList s from_
-  let s := recordReport c s id f0 f0 d
+/-- the "not using GetVpnAddrAndVersion" block of `handleHostUpdateNotification`: claimed address (if filled
+in) and reply version. -/
+def updDetailsVpn (d : Details) : Option Addr × Nat :=
+  if d.oldVpn != 0 then (some (v4Addr d.oldVpn), 1)
+  else match d.vpn with
+    | some a => (some a.unmap, 2)
+    | none => (none, 2)
+
+/-- both gates of `handleHostUpdateNotification`: I am a lighthouse, and a filled-in address is one of the
+sender's authenticated addresses. -/
+def updateAccepted (c : Cfg) (from_ : List Addr) (d : Details) : Bool :=
+  c.amLighthouse && !(match (updDetailsVpn d).1 with | some a => !memB from_ a | none => false)
+
+/-- the HostUpdateNotificationAck (none for a v1 message from an IPv6-only sender). -/
+def updateAck (useVersion : Nat) (f0 : Addr) : List Sent :=
   if useVersion == 1 then
-    if !f0.is4 then (s, {})
-    else (s, { sent := [{ to := f0, msg := { typ := typHostUpdateNotificationAck, details := some { oldVpn := f0.val } } }] })
-  else (s, { sent := [{ to := f0, msg := { typ := typHostUpdateNotificationAck, details := some {} } }] })
+    if !f0.is4 then []
+    else [{ to := f0, msg := { typ := typHostUpdateNotificationAck, details := some { oldVpn := f0.val } } }]
+  else [{ to := f0, msg := { typ := typHostUpdateNotificationAck, details := some {} } }]
+
+def handleHostUpdateNotification (c : Cfg) (s : LH) (from_ : List Addr) (d : Details) : LH × Outp :=
+  if !updateAccepted c from_ d then (s, {}) else
+  let f0 := from_.headD ⟨.v4, 0⟩
+  (recordReport c (getRemoteList s from_).1 (getRemoteList s from_).2 f0 f0 d,
+   { sent := updateAck (updDetailsVpn d).2 f0 })
 
 /-- `handleHostPunchNotification` (after the fix: targets pass the same filter as reported addresses). -/
 def handleHostPunchNotification (c : Cfg) (s : LH) (from_ : List Addr) (d : Details) : LH × Outp :=
